@@ -5,7 +5,12 @@ use crate::eviction::EvictionPolicy;
 use crate::store::CacheStore;
 use crate::{Cache, CacheConfig, KeyExtractor};
 use std::hash::Hash;
+#[cfg(feature = "verif-hooks")]
+use std::sync::Arc;
+#[cfg(not(feature = "verif-hooks"))]
 use std::sync::{Arc, Mutex};
+#[cfg(feature = "verif-hooks")]
+use tower_resilience_core::verif::sync::Mutex;
 use std::time::Duration;
 use tower::Layer;
 use tower_resilience_core::{EventListeners, FnListener};
